@@ -31,12 +31,14 @@ TRUSTED = [
     "Print Assumptions: all C14 theorems closed under the global context (no axioms)",
     "translator harness/c14.py:generate (Python ast): whether _cleanup_pending_responses iterates a copy, whether _run's finally clears self.writer and calls the cleanup, whether both handlers of execute_server_command hand a fresh KlongException to result_future.set_exception",
     "extraction: ExtrOcamlBasic only; ocaml/driver.ml",
-    "correspondence harness: gates inside ioloop.create_future / asyncio.run_coroutine_threadsafe, the recording writer stub, asyncio.StreamReader feed_data/feed_eof/set_exception, quiescence detection by marker callbacks",
+    "coq/C13 (Model.v, Proofs.v: frame_delivery, cut_delivery) imported by coq/C14; built by this harness under C13's lock, visible through COQPATH",
+    "correspondence harness: gated conn_provider.connect (subclass of ReaderWriterConnectionProvider / real HostPortConnectionProvider over a patched asyncio.open_connection), gates inside ioloop.create_future / asyncio.run_coroutine_threadsafe, the recording writer stub, asyncio.StreamReader feed_data/feed_eof/set_exception, quiescence detection by marker callbacks",
 ]
 ASSUME = [
     "uuid.uuid4() never returns the same id twice (message ids are modelled as call indices)",
     "dict get/set/pop/`in`/clear/list(values()) and Future.set_result/set_exception are atomic under the GIL; the io loop runs one callback at a time",
-    "frames reach _listen intact whatever the fragmentation (theorem C13_frame_delivery); a cut inside id / length / body or between frames raises IncompleteReadError (C13_cut_delivery), re-checked here on the real StreamReader",
+    "the byte-level wire is inside the model (coq/C14/Wire.v over C13.Model.feed; C14_wire_* and C14_all_bytes): assumed only that a frame's label (response to call k / push / close request) is a function of the frame, and that a body that cannot be unpickled does not occur",
+    "conn_provider.connect() eventually returns or raises KlongIPCCreateConnectionException (HostPortConnectionProvider: max_retries); _run never reconnects (every handler breaks out of its loop)",
     "the server answers a request only after it was sent, answers a close request with KGRemoteCloseConnection, and a server-side evaluation error shows at the client as the connection being closed (read in TcpServerConnectionHandler / NetworkClient._run)",
     "real TCP behaviour (half-open sockets, RST timing, writer.drain() failing before the reader sees the reset) is not exhibited by in-memory streams",
     "server half: an evaluation failure is an Exception; a BaseException that is not an Exception (KeyboardInterrupt, SystemExit, CancelledError, user classes) is caught by neither handler of execute_server_command and is outside the domain (modelled, stated as C14_server_baseexception_outside_domain, compared but not judged)",
@@ -1311,7 +1313,8 @@ def run(tier, replay=None):
         rule="scripts = schedules of the atomic steps of <=3 calls (invoke / register / schedule+send, gated inside the real code) interleaved with "
              "environment steps (response frames in every arrival order and fragmentation, duplicates, server pushes, EOF inside id/length/body/"
              "between frames, reset, server-initiated close, failing dispatch, close() acks, a registration inside the cleanup loop), each played "
-             "out to a maximal run; server half = request sequences on a real handle_client/run_server with a real interpreter, one request kind per evaluation "
+             "out to a maximal run; calls racing run_client() before connect() returns (which then succeeds or raises), with both providers; failing on_error/on_close callbacks in a quarter of the scripts; "
+             "every script without a cleanup pause is also replayed at BYTE level (the chunks actually fed, decoded by C13's reader inside the model); server half = request sequences on a real handle_client/run_server with a real interpreter, one request kind per evaluation "
              "outcome class (values, functions, unpicklable value, KlongException, syntax error, ValueError, user Exception, arity error, unknown symbol, KeyError, "
              "StopIteration, StopIteration subclass, exhausted iterator, BaseException) each followed by a further request; distinct = distinct effective script after the model dropped disabled steps; non-trivial = >=2 calls or a fault",
         trusted_base=TRUSTED, assumptions=ASSUME,
